@@ -257,6 +257,18 @@ static std::string whitenOp(Args& A, bool zca, Trainer* sessionTrainer, Session*
 		for(std::size_t a = 0; a < T.d; ++a) if(a != pr){ double f = Cx[a][pc] / Cx[pr][pc]; for(std::size_t c = 0; c < T.d; ++c) Cx[a][c] -= f * Cx[pr][c]; }
 	  } }
 	if(!zca && r != rank) o.fail("whitening-rank");
+	// batch-partition independence.  The whitening factor itself is not unique (the pivoted Cholesky decomposition
+	// breaks ties between equal pivots on rounding noise), W^T W = t * Cov^-1 is: compared for regular covariances
+	if(rank == T.d){
+		std::vector<std::vector<std::size_t> > parts = T.otherPartitions();
+		RealMatrix G = prod(trans(W), W);
+		for(std::size_t p = 0; p < parts.size(); ++p){
+			UnlabeledData<RealVector> other = T.unlabeled(parts[p]);
+			LinearModel<> m2; Trainer t2(target); t2.train(m2, other);
+			RealMatrix G2 = prod(trans(m2.matrix()), m2.matrix());
+			if(!closeMat(G, G2, 1e-8) || (zca && !closeMat(W, m2.matrix(), 1e-8))) o.fail("batch-dependent");
+		}
+	}
 	std::vector<std::vector<double> > Cy(r, std::vector<double>(r, 0.0));
 	for(std::size_t a = 0; a < r; ++a){
 		if(!(std::fabs(ym[a]) <= 1e-8 * (1 + wscale * 64))) o.fail("whitening-mean");
